@@ -139,23 +139,30 @@ def stepC17 (c : Cfg) (fs : List String) : Cfg × String :=
       let c' : Cfg := { kept := kept, isDt := true, unit := u, s := s }
       (c', if kept then "keep" else render Arc.Generated.C17.dtFmt Arc.Generated.C17.dtArgs col 0 s)
   | ["tbcfg", amount, unitw, col, originHex] =>
-    match nat? amount, (if originHex == "-" then some "" else unhexStr originHex) with
-    | some n, some origin =>
-      let three := originHex != "-"
-      let nu := normUnit unitw
-      let s := intervalToSeconds Arc.Generated.C17.unitTable n nu
-      -- DuckDB's own reading of the interval unit (case-insensitive, plural allowed)
-      let lw := unitw.toLower
-      let lw := if lw.toList.getLast? = some 's' then String.ofList lw.toList.dropLast else lw
-      let W : Int := (n : Int) * ((TUnit.ofString? lw).map TUnit.secs).getD 0 * usPerSec
-      let po := if three then parseOrigin origin else some (0, 0)
-      let kept := (col.toList.contains '(') || s == 0 || po.isNone
-      let (osec, ofrac) := po.getD (0, 0)
-      let O : Int := if three then osec * usPerSec + ofrac else defaultOriginUs
-      let c' : Cfg := { kept := kept, isDt := false, W := W, O := O, o := osec, s := s, three := three }
-      (c', if kept then "keep"
-           else if three then render Arc.Generated.C17.tb3Fmt Arc.Generated.C17.tb3Args col osec s
-           else render Arc.Generated.C17.tb2Fmt Arc.Generated.C17.tb2Args col 0 s)
+    -- amount: plain, or `h:<hex>` when it contains blanks. The trigger regexes capture `(\d+)` right after the
+    -- quote, so anything that is not all ASCII digits is simply not rewritten.
+    let amountStr := if amount.startsWith "h:" then unhexStr (amount.drop 2).toString else some amount
+    match amountStr, (if originHex == "-" then some "" else unhexStr originHex) with
+    | some astr, some origin =>
+      -- `'(\\d+)\\s*(unit)'`: blanks between the digits and the unit word belong to `\\s*`
+      match digitsVal (astr.toList.reverse.dropWhile Char.isWhitespace).reverse with
+      | none => ({ c with kept := true, isDt := false }, "keep")
+      | some n =>
+        let three := originHex != "-"
+        let nu := normUnit unitw
+        let s := intervalToSeconds Arc.Generated.C17.unitTable n nu
+        -- DuckDB's own reading of the interval unit (case-insensitive, plural allowed)
+        let lw := unitw.toLower
+        let lw := if lw.toList.getLast? = some 's' then String.ofList lw.toList.dropLast else lw
+        let W : Int := (n : Int) * ((TUnit.ofString? lw).map TUnit.secs).getD 0 * usPerSec
+        let po := if three then parseOrigin origin else some (0, 0)
+        let kept := (col.toList.contains '(') || s == 0 || po.isNone
+        let (osec, ofrac) := po.getD (0, 0)
+        let O : Int := if three then osec * usPerSec + ofrac else defaultOriginUs
+        let c' : Cfg := { kept := kept, isDt := false, W := W, O := O, o := osec, s := s, three := three }
+        (c', if kept then "keep"
+             else if three then render Arc.Generated.C17.tb3Fmt Arc.Generated.C17.tb3Args col osec s
+             else render Arc.Generated.C17.tb2Fmt Arc.Generated.C17.tb2Args col 0 s)
     | _, _ => (c, "bad-op")
   | ["t", t] =>
     match int? t with
@@ -178,7 +185,7 @@ def stepC17 (c : Cfg) (fs : List String) : Cfg × String :=
     | some s => (c, match parseOrigin s with | some (sec, fr) => s!"{sec} {fr}" | none => "err")
     | none => (c, "bad-op")
   | ["fn", "its", amount, unit] =>
-    match nat? amount with
+    match digitsVal amount.toList with
     | some n => (c, s!"{intervalToSeconds Arc.Generated.C17.unitTable n unit}")
     | none => (c, "bad-op")
   | ["like", endOk, enc] =>
